@@ -74,7 +74,7 @@ func TestCheck(t *testing.T) {
 		now := bubble.NowMs()
 
 		// (a) serialiser writes the specified CRCs; exhaustive single-bit flips and bursts
-		nBundles := r.Pick(64, 1500)
+		nBundles := r.Pick(160, 1500)
 		r.Group("bundles", nBundles, func(i int, rng *report.Rand) {
 			o := model.GenOpts{NowMs: now, CRCMode: 4, SmallOnly: true, MaxPayload: 64}
 			big := r.Thorough() && i%50 == 0
@@ -194,7 +194,7 @@ func TestCheck(t *testing.T) {
 		r.Exhaustive("every bit position of every sampled encoding up to 4 KiB")
 
 		// (c) declared CRC type without CRC element / with a CRC element of the wrong width
-		nC := r.Pick(300, 6000)
+		nC := r.Pick(1000, 6000)
 		r.Group("arity", nC, func(i int, rng *report.Rand) {
 			o := model.GenOpts{NowMs: now, CRCMode: 4, SmallOnly: true}
 			m := model.GenBundle(rng, o)
@@ -250,7 +250,7 @@ func TestCheck(t *testing.T) {
 		})
 
 		// created primary blocks always carry a CRC
-		r.Group("created", r.Pick(200, 2000), func(i int, rng *report.Rand) {
+		r.Group("created", r.Pick(600, 2000), func(i int, rng *report.Rand) {
 			src := model.GenEID(rng, false)
 			dst := model.GenEID(rng, false)
 			crc := bpv7.CRCType(rng.Intn(3))
